@@ -1027,7 +1027,7 @@ def tags(inp, out):
 
 
 def generate(tier, rng):
-    n = 300 if tier != 'thorough' else 2400
+    n = 260 if tier != 'thorough' else 2000
     for i in range(n):
         yield gen_input(rng, exact=(i % 2 == 0), allow_maxpool=ALLOW_MAXPOOL)
 
